@@ -190,6 +190,12 @@ func Shrink(raw json.RawMessage) []json.RawMessage {
 			emit(func(c *Scenario) bool { c.Regs = append(c.Regs[:ri], c.Regs[ri+1:]...); return true })
 		}
 	}
+	if sc.OtherPack {
+		emit(func(c *Scenario) bool { c.OtherPack = false; return true })
+	}
+	if sc.CloseTask {
+		emit(func(c *Scenario) bool { c.CloseTask = false; return true })
+	}
 	if sc.UID != 0 {
 		emit(func(c *Scenario) bool { c.UID = 0; return true })
 	}
